@@ -756,7 +756,16 @@ fn run_c08_case(rep: &mut Report, ws: &Workspace, case_seed: u64, r: &mut Rng, p
     for (mi, oi) in cands {
         let occ = &ws.printed[mi].occs[oi];
         let file = loaded.file_by_path(&module_path(mi)).unwrap();
-        let fpos = FilePos::new(file, TextSize::from(occ.range.0 as u32));
+        // the cursor: at the start of the name, inside it, or right behind its last character
+        // (where a bar cursor sits after typing or clicking at the end of a word)
+        let (at, at_name) = match r.below(3) {
+            0 => (occ.range.0, "start"),
+            1 if occ.range.1 - occ.range.0 >= 2 && ws.printed[mi].text.is_char_boundary(occ.range.0 + 1) => (occ.range.0 + 1, "inside"),
+            1 => (occ.range.0, "start"),
+            _ => (occ.range.1, "end"),
+        };
+        rep.see("cursor_positions", at_name);
+        let fpos = FilePos::new(file, TextSize::from(at as u32));
         // classification from the sidecar
         let (symbol, what): (Option<usize>, &'static str) = match &occ.ident.bind {
             Bind::Decl(d) => (Some(ws.canonical(*d)), "symbol"),
@@ -771,7 +780,7 @@ fn run_c08_case(rep: &mut Report, ws: &Workspace, case_seed: u64, r: &mut Rng, p
         let locality = if local { if symbol.map(|d| pkg_of_module[ws.decls[d].module] == 1).unwrap_or(false) { "local-path-dep" } else { "local-root" } } else { "non-local" };
         let kname = kind.map(kind_name).unwrap_or_else(|| what.to_string());
         let mut rp = replay_base.clone();
-        rp["occurrence"] = json!({"path": module_path(mi), "range": [occ.range.0, occ.range.1], "text": occ.ident.text, "site": occ.ident.site});
+        rp["occurrence"] = json!({"path": module_path(mi), "range": [occ.range.0, occ.range.1], "text": occ.ident.text, "site": occ.ident.site, "cursor": at});
         let mut valid_ok: Option<bool> = None;
         for (cname, name) in &classes {
             rep.evaluations += 1;
@@ -835,7 +844,7 @@ fn run_c08_case(rep: &mut Report, ws: &Workspace, case_seed: u64, r: &mut Rng, p
                 rep.evaluations += 1;
                 if pr.is_ok() != vok {
                     rep.violate(
-                        format!("prepare-rename-disagrees:{kname}:{locality}{}", if alias_spelling { ":alias-spelling" } else { "" }),
+                        format!("prepare-rename-disagrees:{kname}:{locality}{}:cursor-at-{at_name}", if alias_spelling { ":alias-spelling" } else { "" }),
                         format!("prepare_rename at `{}` says {:?} but rename with a valid name {}", occ.ident.text, pr.as_ref().map(|x| x.1.to_string()), if vok { "succeeds" } else { "fails" }),
                         rp.clone(),
                     );
@@ -1118,6 +1127,59 @@ fn run_c18_case(rep: &mut Report, ws: &Workspace, case_seed: u64) {
 
 // ----------------------------------------------------------------------------------
 
+/// Hand-built workspaces for C05: shapes whose meaning in Gleam is not in doubt but which the
+/// scoped generator cannot compose (it keeps top-level names and module accessors apart,
+/// because `name.x` in EXPRESSION position is ambiguous without types). `$0` marks the cursor;
+/// the expected target is a module file (range 0..0) or the text of the declaration's name.
+fn run_c05_fixed(rep: &mut Report) {
+    enum Want {
+        Module(&'static str),
+        Name(&'static str, &'static str), // (file, text that the focus range must select: first occurrence after "decl:")
+    }
+    let lib = ("/ws/pkg/src/lib.gleam", "pub type Thing { Thing(a: Int) }\npub const x = 1\npub fn map(l, f) { f(l) }\n");
+    let cases: Vec<(&str, &str, Want)> = vec![
+        ("pattern-qualifier-with-a-parameter-of-that-name", "import lib\n\npub fn main(lib) {\n  case lib {\n    $0lib.Thing(a: b) -> b\n  }\n}\n", Want::Module("/ws/pkg/src/lib.gleam")),
+        ("pattern-qualifier-with-a-let-of-that-name", "import lib\n\npub fn main(v) {\n  let lib = v\n  let $0lib.Thing(a: b) = lib\n  b\n}\n", Want::Module("/ws/pkg/src/lib.gleam")),
+        ("constant-qualifier-with-a-function-of-that-name", "import lib\n\nfn lib() { 1 }\n\npub const y = $0lib.x\n", Want::Module("/ws/pkg/src/lib.gleam")),
+        ("constant-qualifier-with-a-constant-of-that-name", "import lib\n\nconst lib = 2\n\npub const y = #($0lib.x, lib)\n", Want::Module("/ws/pkg/src/lib.gleam")),
+        ("constant-qualified-constructor-with-a-function-of-that-name", "import lib\n\nfn lib() { 1 }\n\npub const y = $0lib.Thing(1)\n", Want::Module("/ws/pkg/src/lib.gleam")),
+        ("aliased-pattern-qualifier-with-a-parameter-of-that-name", "import lib as l\n\npub fn main(l) {\n  case l {\n    $0l.Thing(a: b) -> b\n  }\n}\n", Want::Module("/ws/pkg/src/lib.gleam")),
+        ("parameter-used-as-case-subject-next-to-a-qualifier", "import lib\n\npub fn main(lib) {\n  case $0lib {\n    lib.Thing(a: b) -> b\n  }\n}\n", Want::Name("/ws/pkg/src/main.gleam", "main(lib")),
+    ];
+    for (name, text, want) in cases {
+        let at = text.find("$0").unwrap();
+        let clean = text.replacen("$0", "", 1);
+        let files = vec![(lib.0.to_string(), lib.1.to_string()), ("/ws/pkg/src/main.gleam".to_string(), clean.clone()), ("/ws/pkg/gleam.toml".to_string(), "name = \"pkg\"\n".to_string())];
+        let loaded = ws::load_single(&files);
+        let an = loaded.host.snapshot();
+        let file = loaded.file_by_path("/ws/pkg/src/main.gleam").unwrap();
+        rep.evaluations += 1;
+        rep.see("fixed_cases", name);
+        let got = sema::goto_at(&an, file, at);
+        let replay = json!({"kind":"workspace","files":files_json(&files),"fixed_case":name,"cursor":at});
+        let ok = match (&want, &got) {
+            (Want::Module(path), Goto::One(t)) => t.file == loaded.file_by_path(path).unwrap().0 && t.focus == (0, 0),
+            (Want::Name(path, ctx), Goto::One(t)) => {
+                let f = loaded.file_by_path(path).unwrap();
+                let src = loaded.text(f);
+                // the declaration is the last identifier of `ctx`
+                let pos = src.find(ctx).map(|p| p + ctx.rfind(|c: char| !c.is_alphanumeric() && c != '_').map(|i| i + 1).unwrap_or(0));
+                t.file == f.0 && Some(t.focus.0) == pos
+            }
+            _ => false,
+        };
+        if !ok {
+            rep.violate(format!("goto-wrong:fixed:{name}"), format!("goto at the marked position answers {got:?}"), replay.clone());
+        }
+        // a module is not renameable, whatever else carries its spelling
+        if let Want::Module(_) = want {
+            if let Outcome::Ok(Ok(Ok(_))) = panicmon::guard(|| an.prepare_rename(FilePos::new(file, TextSize::from(at as u32)))) {
+                rep.violate(format!("rename-accepts:fixed:{name}"), "prepare_rename on a module qualifier accepts".to_string(), replay);
+            }
+        }
+    }
+}
+
 fn run(args: Args) -> Report {
     let mut rep = Report::new(&args.prop, args.shard);
     let mut journal = Journal::open(&args.out, &args.prop, args.shard);
@@ -1126,6 +1188,9 @@ fn run(args: Args) -> Report {
     let mut n = 0u64;
     match args.prop.as_str() {
         "C05" => {
+            if args.shard == 0 && args.only_case().is_none() {
+                run_c05_fixed(&mut rep);
+            }
             while t0.elapsed().as_secs_f64() < args.budget_s {
                 let Some(case_seed) = args.next_case(&mut r) else { break };
                 let mut cr = Rng::new(case_seed);
